@@ -290,6 +290,7 @@ func (p *c03) sig(c *c03case, mode string) string {
 }
 
 func (p *c03) RunCase(i int) *core.CaseResult {
+	defer withNoise()()
 	r := &core.CaseResult{}
 	c := &p.cases[i]
 	sql := p.sel(c).SQL()
